@@ -151,6 +151,13 @@ impl MqttState {
             }
         }
 
+        // a publish parked on a packet id collision was never transmitted: hand it back as
+        // well (without an id), no collision can be pending while no id is in use
+        if let Some(mut publish) = self.collision.take() {
+            publish.pkid = 0;
+            pending.push(Request::Publish(publish));
+        }
+
         // remove and collect pending releases
         for pkid in self.outgoing_rel.ones() {
             let request = Request::PubRel(PubRel::new(pkid as u16, None));
